@@ -86,6 +86,9 @@ pub struct SchedOpts {
     pub check_lin: bool,
     /// check C14's at-rest bound with this memory limit
     pub c14: bool,
+    /// check that (accounted usage - stored bytes) is the same before and after the concurrent
+    /// phase (C15; only meaningful for programs whose commands account exactly when run alone)
+    pub c15: bool,
     pub max_steps: usize,
     pub max_execs: u64,
 }
@@ -413,6 +416,10 @@ fn body(p: &Arc<Prepared>) {
         c0.exec(r);
     }
     world.clock.set(p.clock_after_init);
+    let drift0: i128 = match world.usage() {
+        Some(u) => u as i64 as i128 - world.dump().iter().map(|d| d.size() as i128).sum::<i128>(),
+        None => 0,
+    };
     let log: Arc<Mutex<Vec<OpObs>>> = Arc::new(Mutex::new(vec![]));
     let stamp = Arc::new(AtomicU64::new(1));
     let mut handles = vec![];
@@ -439,6 +446,10 @@ fn body(p: &Arc<Prepared>) {
     }
     // at rest: what is stored, then what a client sees
     let dump_at_rest = world.dump();
+    let drift1: i128 = match world.usage() {
+        Some(u) => u as i64 as i128 - dump_at_rest.iter().map(|d| d.size() as i128).sum::<i128>(),
+        None => 0,
+    };
     let mut finals: Vec<(Vec<u8>, Option<Resp>)> = vec![];
     for k in &p.prog.keys {
         let out = c0.exec(&Req::get(op::GET, k).opaque(0xf1).bytes());
@@ -447,7 +458,7 @@ fn body(p: &Arc<Prepared>) {
     let dump = world.dump();
     let mut ops = log.lock().unwrap().clone();
     ops.sort_by_key(|o| (o.client, o.index));
-    let res = evaluate(p, &ops, &finals, &dump_at_rest, &dump);
+    let res = evaluate(p, &ops, &finals, &dump_at_rest, &dump, drift1 - drift0);
     LAST.with(|l| *l.borrow_mut() = Some(res));
 }
 
@@ -457,6 +468,7 @@ fn evaluate(
     finals: &[(Vec<u8>, Option<Resp>)],
     dump_at_rest: &[DumpItem],
     dump: &[DumpItem],
+    drift_change: i128,
 ) -> ExecResult {
     // cache key: responses + precedence relation + final content
     let mut h = DefaultHasher::new();
@@ -473,6 +485,7 @@ fn evaluate(
         (&d.key, &d.value, d.flags, d.cas).hash(&mut h);
     }
     dump_at_rest.len().hash(&mut h);
+    drift_change.hash(&mut h);
     let key = h.finish();
     if let Some(v) = VERDICTS.with(|m| m.borrow().get(&key).cloned()) {
         return ExecResult { viol: v, outcome_hash: key };
@@ -539,6 +552,16 @@ fn evaluate(
                 ));
             }
         }
+    }
+    if viol.is_none() && p.opts.c15 && drift_change != 0 {
+        viol = Some((
+            "usage-drift-concurrent",
+            format!(
+                "accounted usage minus stored bytes changed by {} across the concurrent phase although every command of the program accounts exactly when run alone; ops: {}",
+                drift_change,
+                show_ops(ops)
+            ),
+        ));
     }
     VERDICTS.with(|m| m.borrow_mut().insert(key, viol.clone()));
     ExecResult { viol, outcome_hash: key }
